@@ -300,6 +300,19 @@ Theorem T02c_hessian_symmetric : forall Phi, Phi_ok Phi ->
 Proof. exact hess_symmetric_at. Qed.
 Print Assumptions T02c_hessian_symmetric.
 
+(* non-vacuity: on the demo formula the mixed entries (b, c) and (c, b) coincide, and both are real numbers *)
+Example T02c_demo : forall Phi, Phi_ok Phi ->
+  evalX Phi (D (WBeta "c") (D (WBeta "b") demo_tree)) demo_env = evalX Phi (D (WBeta "b") (D (WBeta "c") demo_tree)) demo_env
+  /\ exists d, evalX Phi (D (WBeta "c") (D (WBeta "b") demo_tree)) demo_env = XR d.
+Proof.
+  intros Phi HP. destruct (T02a_hypotheses_hold Phi) as (Hb & Hvb & Hd).
+  assert (Hc : In (WBeta "c") [WBeta "b"; WBeta "c"]) by (right; left; reflexivity).
+  split.
+  - exact (T02c_hessian_symmetric Phi HP _ demo_env (WBeta "b") (WBeta "c") (1/2) 2 demo_tree Hb Hc Hvb eq_refl Hd).
+  - exact (T02a_D_value Phi HP _ demo_env (WBeta "c") 2 _ Hc eq_refl
+             (T02a_dom_D Phi HP _ demo_env (WBeta "b") (1/2) demo_tree Hb Hvb Hd)).
+Qed.
+
 (* the derivative tree does not depend on parameters the formula does not mention *)
 Theorem T02c_mentions_D : forall u v e, mentions u (D v e) = true -> mentions u e = true.
 Proof. exact mentions_D. Qed.
